@@ -526,3 +526,21 @@ Definition select_guard (name : str) (ms : list matcher) (db : list series) : bo
   forallb (fun m => negb (str_eqb (m_val m) star_val)) ms &&
   nodup_strb (map m_key ms) &&
   forallb (series_ok name ms) db.
+
+(* ---------- the shape of tracker ids, and the guard of group-key extraction ---------- *)
+Definition body (ls : labels) : str := concat (map (fun p => kv (fst p) (snd p)) ls).
+Definition render_id (name : str) (ls : labels) : str := name ++ c_lbrace :: body ls.
+
+Definition has_byte (c : N) (s : str) : bool := existsb (N.eqb c) s.
+Definition clean (s : str) : bool :=
+  negb (has_byte c_colon s) && negb (has_byte c_comma s) && negb (has_byte c_lbrace s).
+
+Fixpoint is_suffix (f k : str) : bool :=
+  str_eqb f k || match k with [] => false | _ :: k' => is_suffix f k' end.
+
+Definition labels_clean (ls : labels) : bool := forallb (fun p => clean (fst p) && clean (snd p)) ls.
+
+(* searching "field:" in the id finds the label [field] itself: no OTHER key of the id ends with the field *)
+Definition extract_guard (name : str) (ls : labels) (f : str) : bool :=
+  clean name && labels_clean ls && clean f && negb (Nat.eqb (length f) 0) &&
+  forallb (fun p => str_eqb (fst p) f || negb (is_suffix f (fst p))) ls.
